@@ -27,6 +27,8 @@ META = {
 
 FULL = '{"A4", "A6", "A6z", "Abad", "N", "Nidn", "Nbad", "SP", "TAB", "HASH", "CMT", "CR"}'
 CLASSES = '{"cA", "cN", "cJ", "cS", "cH"}'
+LONG_Q = "{7, 8, 9, 10, 15, 16, 17, 31, 32, 33, 64, 65, 100}"
+LONG_T = "{6, 7, 8, 9, 10, 11, 12, 15, 16, 17, 18, 24, 31, 32, 33, 34, 48, 63, 64, 65, 66, 100, 127, 128, 129, 200}"
 RECORDS = '{"cA", "cN", "cS", "Nbad"}'
 LEMMAS = ["InvRoundTrip", "InvImplRefines", "InvCommentIgnored", "InvSeparatorsIrrelevant", "InvPriority"]
 
@@ -43,26 +45,41 @@ def run(ctx):
         "netip.ParseAddr and netutil.ValidateDomainName are the trusted references (the statement names them)",
         "uniformity: two texts of the same token class (same verdicts of the two references) are treated alike",
         "errors are classified by errors.Is / errors.As only; an address error must carry netip.ParseAddr's own error in its chain",
+        "the input is the caller's memory: UnmarshalText must not write to data, to the bytes around it or to its spare "
+        "capacity (inputs are sub-slices of an arena with guard bytes), parsing the same buffer twice must agree, and "
+        "goroutines may unmarshal one shared line concurrently (race detector; a report with a hostsfile frame is a violation)",
         "storage of the receiver across calls is outside the statement: UnmarshalText may reuse the backing array of "
         "rec.Names when parsing again into the same *Record (as encoding/json does for slices), so a value copy of an "
         "earlier result that the caller kept may be overwritten by the next parse; only the record after each single call "
         "(fresh or pre-populated receiver) and the independence from the input buffer are checked",
     ]
 
+    # 0. MC: the caller's memory (the input is never written; every result stays the value of its line under any
+    #    interleaving of callers sharing the arena).
+    write_cfg(d / "HostsLineMem_run.cfg", "MSpec",
+              {"Alphabet": "{}", "MaxLen": 0, "Lines": "<- MCLines", "Procs": "{1, 2}" if q else "{1, 2, 3}",
+               "MaxCalls": 4 if q else 5},
+              invariants=["InputUntouched", "ResultsStayValid", "Repeatable"])
+    ctx.tlc(d, "HostsLineMemMC", "HostsLineMem_run.cfg", label="line-mem-mc", timeout=900)
+
     # 1. MC: design lemmas on all strings (glued fields included).
     write_cfg(d / "HostsLineMC_run.cfg", "Spec", {"Alphabet": FULL, "MaxLen": 5 if q else 6}, invariants=LEMMAS)
     ctx.tlc(d, "HostsLine", "HostsLineMC_run.cfg", label="line-mc", timeout=1500)
 
     # 2. G: full alphabet, then class alphabet for longer lines (appends to the same file).
-    write_cfg(d / "HostsLineGenFull_run.cfg", "GSpec", {"Alphabet": FULL, "MaxLen": 5 if q else 6},
+    write_cfg(d / "HostsLineGenFull_run.cfg", "GSpec", {"Alphabet": FULL, "MaxLen": 5 if q else 6, "LongCounts": "{}"},
               invariants=["Emit", "GenLemmas"])
     ctx.tlc(d, "HostsLineGen", "HostsLineGenFull_run.cfg", label="line-gen-full", timeout=1500)
-    write_cfg(d / "HostsLineGenClass_run.cfg", "GSpec", {"Alphabet": CLASSES, "MaxLen": 8 if q else 9},
+    write_cfg(d / "HostsLineGenClass_run.cfg", "GSpec", {"Alphabet": CLASSES, "MaxLen": 8 if q else 9, "LongCounts": "{}"},
               invariants=["Emit", "GenLemmas"])
     ctx.tlc(d, "HostsLineGen", "HostsLineGenClass_run.cfg", label="line-gen-class", timeout=1800)
     # record-shaped lines: addresses, names, separators and bad names only (many are accepted, up to 5-6 names; a bad
     # name appears in every name position: first, middle, last)
-    write_cfg(d / "HostsLineGenRec_run.cfg", "GSpec", {"Alphabet": RECORDS, "MaxLen": 11 if q else 13},
+    # The same run carries the long-line family (extra initial states): an address and k names, k around the sizes of
+    # small fixed buffers and beyond, one bad name at the first / 8th-10th / second to last / last position or none,
+    # four separator layouts, with and without a trailing comment.
+    write_cfg(d / "HostsLineGenRec_run.cfg", "GSpec",
+              {"Alphabet": RECORDS, "MaxLen": 11 if q else 13, "LongCounts": LONG_Q if q else LONG_T},
               invariants=["Emit", "GenLemmas"])
     ctx.tlc(d, "HostsLineGen", "HostsLineGenRec_run.cfg", label="line-gen-records", timeout=1800)
     nvec = count_lines(d / "c07_vectors.ndjson")
@@ -87,6 +104,23 @@ def run(ctx):
     if min(special.values()) == 0:
         raise CheckerError("special names missing from a name position: %s" % special)
     ctx.extra["special_names_by_position"] = special
+
+    # 2b. goroutines unmarshalling one shared input line, under the race detector.
+    pr = ctx.vh(["c07", "race-lines", d / "c07_vectors.ndjson", ctx.scratch / "race.res", 2000 if q else 20000],
+                race=True, timeout=1800)
+    s3 = ctx.collect(ctx.scratch / "race.res")
+    if s3["shared_lines"] < 500:
+        raise CheckerError("only %d shared lines in the race phase" % s3["shared_lines"])
+    golibs, other = ctx.race_reports()
+    if other and not golibs:
+        raise CheckerError("race detector reported a race in the harness only:\n" + other[0][:3000])
+    for rep in golibs:
+        frames = [l.strip() for l in rep.splitlines() if "/hostsfile/" in l and ".go:" in l]
+        key = "DATA RACE " + " | ".join(sorted(set(f.split("/")[-1].split(" ")[0] for f in frames))[:4])
+        ctx.mismatch(key, "the race detector reported a data race between goroutines that unmarshal one shared input line",
+                     rep[:6000])
+    ctx.evaluations += s3["race_calls"]
+    ctx.extra["shared_line_race_calls"] = s3["race_calls"]
 
     # 3. T: random byte lines, abstracted by the references, judged by TLC.
     n = 20000 if q else 150000
